@@ -878,7 +878,7 @@ static void body(void)
 		/* a final loop step delivers what is still pending (also needed so that a
 		 * scheduled deferred callback does not keep the buffer alive) */
 		if (MODE == 13 && BASE) { loop_step(); if (accA_add || accA_del) failk("deferred-lost", "end", "changes +%zu -%zu still unreported after the final loop step", accA_add, accA_del); }
-		if (step >= 0 && !mc_failed()) { curop = "battery"; battery(0); if (!mc_failed()) battery(1); }
+		if (step >= 0 && !mc_failed() && mc_param("battery", 1)) { curop = "battery"; battery(0); if (!mc_failed()) battery(1); }
 	}
 	/* teardown + hygiene */
 	curop = "teardown";
